@@ -127,7 +127,7 @@ static enum DeviceStatusCode cam_start(struct Camera* self_)
         drvlog(c->dev, "start", "-> err");
         return Device_Err;
     }
-    c->frame = 0; c->ncalls = 0; c->run++;
+    c->frame = 0; c->ncalls = 0; c->run = g_dev[c->dev].run + 1; // runs are counted per device, across re-opens
     g_dev[c->dev].starts++; g_dev[c->dev].running = 1; g_dev[c->dev].run = c->run; g_dev[c->dev].failed = 0;
     g_dev[c->dev].delivered = 0;
     if (g_dev[c->dev].starts - g_dev[c->dev].stops > 1) g_dev[c->dev].start_while_running++;
@@ -220,7 +220,7 @@ static enum DeviceState sto_start(struct Storage* self_)
     struct MockStorage* s = (struct MockStorage*)self_;
     detsched_yield("sto.start");
     g_dev[s->dev].calls_after_close += g_dev[s->dev].closed;
-    s->run++; s->nappend = 0;
+    s->run = g_dev[s->dev].run + 1; s->nappend = 0;
     g_dev[s->dev].starts++; g_dev[s->dev].running = 1; g_dev[s->dev].run = s->run; g_dev[s->dev].failed = 0;
     if (g_dev[s->dev].starts - g_dev[s->dev].stops > 1) g_dev[s->dev].start_while_running++;
     g_dev[s->dev].stored = 0;
@@ -301,6 +301,11 @@ static enum DeviceStatusCode drv_open(struct Driver* d, uint64_t i, struct Devic
     (void)d;
     if (i >= NDEV) return Device_Err;
     detsched_yield("drv.open");
+    if (g_mock.open_fails[i] > 0) {
+        g_mock.open_fails[i]--;
+        drvlog((int)i, "open", "-> err (fault)");
+        return Device_Err;
+    }
     if (g_dev[i].open && !g_dev[i].closed) g_dev[i].double_open++;
     g_dev[i].open = 1; g_dev[i].closed = 0; g_dev[i].opens++;
     if (g_table[i].kind == DeviceKind_Camera) {
